@@ -568,23 +568,48 @@ func suiteEexec(o *suiteOut, r *rng, tier string, n int) {
 			plain.WriteString(g.body(r.rangeInt(1, 2), false))
 		}
 		plain.WriteString(" ")
+		// the plaintext must be a complete program: it runs to its end without error and
+		// leaves no procedure body open (otherwise `closefile` is never executed)
+		complete := func(body []byte) (*postscript.Interpreter, bool) {
+			probe := append(append([]byte("systemdict begin "), body...), []byte(" /sentinel__ 1 def")...)
+			_, pi, pc := runProgram(100000, false, probe)
+			return pi, pc == "ok" && pi.SystemDict["sentinel__"] != nil && len(pi.DictStack) == 3
+		}
+		if _, ok := complete(plain.Bytes()); !ok {
+			continue
+		}
+		// binary strings read with readstring: exactly one byte separates the operator from the data, and the
+		// data may start with any byte (white space included)
+		bins := map[string][]byte{}
 		for k := r.intn(3); k > 0; k-- {
 			ln := r.intn(12)
 			bin := make([]byte, ln)
 			for j := range bin {
 				bin[j] = byte(r.intn(256))
+				if j == 0 && r.chance(1, 2) {
+					bin[j] = pick(r, []byte{' ', '\n', '\r', '\t', 0, '\f'})
+				}
 			}
-			fmt.Fprintf(&plain, "currentfile %d string readstring pop ", ln)
+			// as in Type 1 fonts: the operator runs inside a procedure, the data follows the procedure's name
+			fmt.Fprintf(&plain, "/RD__ {string currentfile exch readstring pop} def %d RD__ ", ln)
 			plain.Write(bin)
-			plain.WriteString(" /s" + fmt.Sprint(k) + " exch def ")
+			plain.WriteString(" /s" + fmt.Sprint(k) + "__ exch def ")
+			bins["s"+fmt.Sprint(k)+"__"] = bin
 		}
 		body := plain.Bytes()
-		// the plaintext must be a complete program: it runs to its end without error and
-		// leaves no procedure body open (otherwise `closefile` is never executed)
-		probe := append(append([]byte("systemdict begin "), body...), []byte(" /sentinel__ 1 def")...)
-		_, pi, pc := runProgram(100000, false, probe)
-		if pc != "ok" || pi.SystemDict["sentinel__"] == nil || len(pi.DictStack) != 3 {
-			continue
+		if len(bins) > 0 {
+			pi, ok := complete(body)
+			line := "run 100000 0 " + hx(append([]byte("systemdict begin "), body...))
+			if !ok {
+				o.fail("C05", "binary data read with readstring is delivered byte-exact (plain text run)", line, "program completes", "error or incomplete")
+				continue
+			}
+			for k, want := range bins {
+				got, _ := pi.SystemDict[postscript.Name(k)].(postscript.String)
+				if !bytes.Equal([]byte(got), want) {
+					o.fail("C05", "binary data read with readstring is delivered byte-exact (plain text run)", line, fmt.Sprintf("%s = %x", k, want), fmt.Sprintf("%x", []byte(got)))
+				}
+			}
 		}
 		prefix := pick(r, []string{"", "/before 1 def ", "%!PS\n5 dict begin /x 2 def end\n", "1 2 "})
 		trailer := pick(r, []string{"", "\n" + strings.Repeat("0", 64) + "\ncleartomark /after 3 def", " 7 8", "\ncleartomark"})
